@@ -103,3 +103,27 @@ func Snap[T any](s []T) []T {
 // ModifiesAll declares that the called function may write any memory
 // reachable from its arguments (no frame is claimed).
 func ModifiesAll() {}
+
+// Disjoint reports whether two slices do not share a backing array (checked
+// at run time on the first elements of the full-capacity views).
+func Disjoint[T any](a, b []T) bool {
+	if cap(a) == 0 || cap(b) == 0 {
+		return true
+	}
+	pa, pb := &a[:cap(a)][0], &b[:cap(b)][0]
+	if pa == pb {
+		return false
+	}
+	// conservative: treat any overlap of the capacity windows as sharing
+	for i := range a[:cap(a)] {
+		if &a[:cap(a)][i] == pb {
+			return false
+		}
+	}
+	for i := range b[:cap(b)] {
+		if &b[:cap(b)][i] == pa {
+			return false
+		}
+	}
+	return true
+}
